@@ -67,7 +67,18 @@ pub fn exec_validator(input: &Value) -> (Value, Value) {
     for o in input["other_after"].as_array().cloned().unwrap_or_default() {
         attr_src.push_str(&format!("    #[{}]\n", o.as_str().unwrap_or("")));
     }
-    let src = format!("#[derive(Serialize, Validate)]\npub struct S {{\n{}    pub x: {},\n}}\n", attr_src, r.render());
+    // `twin`: an earlier field of the same struct and type with validators of its own, rendered by the same builder object
+    // first (what is declared for one field is nobody else's)
+    let mut twin_src = String::new();
+    let has_twin = input.get("twin").map_or(false, |t| t.is_array());
+    if has_twin {
+        for a in input["twin"].as_array().cloned().unwrap_or_default() {
+            let items: Vec<String> = a.as_array().cloned().unwrap_or_default().iter().map(render_item).collect();
+            twin_src.push_str(&format!("    #[validate({})]\n", items.join(", ")));
+        }
+        twin_src.push_str(&format!("    pub w: {},\n", r.render()));
+    }
+    let src = format!("#[derive(Serialize, Validate)]\npub struct S {{\n{}{}    pub x: {},\n}}\n", twin_src, attr_src, r.render());
     let mut in2 = input.clone();
     in2["source"] = json!(src);
     let ast = match syn::parse_file(&src) {
@@ -77,7 +88,7 @@ pub fn exec_validator(input: &Value) -> (Value, Value) {
     let mut toks: Vec<Value> = Vec::new();
     if let Some(syn::Item::Struct(st)) = ast.items.first() {
         if let syn::Fields::Named(n) = &st.fields {
-            if let Some(f) = n.named.first() {
+            if let Some(f) = n.named.iter().nth(if has_twin { 1 } else { 0 }) {
                 for a in &f.attrs {
                     if a.path().is_ident("validate") {
                         toks.push(match a.meta.require_list() {
@@ -101,7 +112,13 @@ pub fn exec_validator(input: &Value) -> (Value, Value) {
             Some(i) => i,
             None => return json!({"error": "no struct"}),
         };
-        let f = match info.fields.first() {
+        let builder = ZodSchemaBuilder::new(&cfg);
+        if has_twin {
+            if let Some(w) = info.fields.first() {
+                let _ = builder.build_schema(&w.type_structure, &w.validator_attributes);
+            }
+        }
+        let f = match info.fields.iter().nth(if has_twin { 1 } else { 0 }) {
             Some(f) => f,
             None => return json!({"error": "no field"}),
         };
@@ -113,7 +130,7 @@ pub fn exec_validator(input: &Value) -> (Value, Value) {
                 "email": v.email, "url": v.url,
             }),
         };
-        let schema = ZodSchemaBuilder::new(&cfg).build_schema(&f.type_structure, &f.validator_attributes);
+        let schema = builder.build_schema(&f.type_structure, &f.validator_attributes);
         json!({"parsed": parsed, "schema": schema})
     });
     (in2, imp)
@@ -245,6 +262,26 @@ pub fn run(out: &mut Out, tier: &str, rng: &mut Rng) {
             out.case("validator", json!({"rty": ty(t), "attrs": [[{"k": kind, "min": n, "max": n, "message": msg("exactly that many", 0)}]]}), json!({"gen": "exact"}));
             out.case("validator", json!({"rty": ty(t), "attrs": [[{"k": kind, "min": n, "max": n}]]}), json!({"gen": "exact"}));
         }
+    }
+    // two fields of one struct, same type and bounds, differing in the message only (or one without a message)
+    for t in ["String", "VecString", "OptString", "i32", "f64", "OptI32"] {
+        let kind = if t == "i32" || t == "f64" || t == "OptI32" { "range" } else { "length" };
+        let with = |m: Option<&str>| -> Value {
+            let mut it = json!({"k": kind, "min": "1", "max": "64"});
+            if let Some(m) = m { it["message"] = msg(m, 0); }
+            json!([[it]])
+        };
+        out.case("validator", json!({"rty": ty(t), "attrs": with(Some("second message")), "twin": with(Some("first message"))}), json!({"gen": "twins"}));
+        out.case("validator", json!({"rty": ty(t), "attrs": with(None), "twin": with(Some("only the first has one"))}), json!({"gen": "twins"}));
+        out.case("validator", json!({"rty": ty(t), "attrs": with(Some("only the second has one")), "twin": with(None)}), json!({"gen": "twins"}));
+        out.case("validator", json!({"rty": ty(t), "attrs": [], "twin": with(Some("the first is validated"))}), json!({"gen": "twins"}));
+    }
+    // one attribute, two validators, the message on the one that does not apply to the field / on the later one
+    for t in ["String", "VecString", "i32", "OptI32"] {
+        let m = msg("belongs to the other one", 0);
+        out.case("validator", json!({"rty": ty(t), "attrs": [[{"k": "length", "min": "3", "max": "64"}, {"k": "range", "max": "9", "message": m}]]}), json!({"gen": "neighbours"}));
+        out.case("validator", json!({"rty": ty(t), "attrs": [[{"k": "range", "min": "1", "max": "9"}, {"k": "length", "max": "4", "message": m}]]}), json!({"gen": "neighbours"}));
+        out.case("validator", json!({"rty": ty(t), "attrs": [[{"k": "length", "min": "3", "message": m}, {"k": "range", "max": "9"}]]}), json!({"gen": "neighbours"}));
     }
     // every validator in a first attribute, every other one in a second (what the first declared must survive the second)
     let singles = [json!({"k": "length", "min": "2", "max": "9"}), json!({"k": "range", "min": "1", "max": "10"}), json!({"k": "email"}), json!({"k": "url"}),
